@@ -66,6 +66,7 @@ def run(tier, out):
     }
     cov["states"] += cov_table.get("states", 0)
     cov["transitions"] += cov_table.get("transitions", 0)
+    cloudcommon.data_design(PID, tier, out, cov)
     cloudcommon.part(PID, tier, out, cov)
     return out.finish("model_checking", cov, assumptions=[
         "switch timeout 10 s in the recorded runs (configuration value), ticks are housekeeping rounds; the tick at exactly t0 + timeout is a don't-care",
